@@ -470,7 +470,7 @@ register_internal (GIRepository *repository,
       if (g_hash_table_lookup_extended (repository->priv->lazy_typelibs,
 					namespace,
 					(gpointer)&key, &value))
-	g_hash_table_remove (repository->priv->lazy_typelibs, key);
+	g_hash_table_steal (repository->priv->lazy_typelibs, key);
       else
 	key = build_typelib_key (namespace, source);
 
